@@ -124,7 +124,7 @@ pub fn e1_jobs(prop: &str, tier: Tier) -> (Vec<E1Job>, usize) {
 pub fn need_for(prop: &str) -> Need {
     Need {
         debug: matches!(prop, "C20" | "C18"),
-        counters: prop == "C04",
+        counters: prop == "C04" || prop == "C07",
         setup_dispose: prop == "C13",
         sendable: prop == "C12",
     }
@@ -507,20 +507,33 @@ pub fn e2_jobs(prop: &str, tier: Tier) -> Vec<E2Job> {
         jobs.push(E2Job { label: "a system panics in the first of three dispatches (caught): the later dispatches run every system once".into(), scenarios: scs, bounds: b(if q { 0 } else { 1 }), delay: false });
         // async dispatcher x thread-local systems: whatever is called between dispatch and wait, the dispatch runs
         // its thread-local systems once (inside that wait)
+        let mut scs_b2b = Vec::new();
+        let mut scs_b2b3 = Vec::new();
         let mut scs = Vec::new();
         for p in tl(2) {
             let info = PlanInfo::of(&p);
             let has_tl = info.nodes.iter().any(|n| n.kind == crate::spec::Kind::Tl && n.parent.is_none());
             // back-to-back dispatch() calls (the second issued while the first may still be in flight) on every plan,
             // the polling / accessor scripts on the plans with thread-local systems
-            let scripts: &[&str] = if has_tl { &["DW", "DRW", "DXW", "DOW", "DMW", "DWDW", "DDW", "DD", "DDD", "DRDW"] } else { &["DD", "DDD", "DDW", "DRDW", "DXDD"] };
+            let scripts: &[&str] = if has_tl { &["DW", "DRW", "DXW", "DOW", "DMW", "DWDW", "DDW", "DRDW"] } else { &["DRDW", "DXDD"] };
             for script in scripts.iter().copied() {
                 let mut sc = Scenario::plain(p.clone(), Mode::Async, 0);
                 sc.script = Some(script.to_string());
                 scs.push(sc);
             }
+            for script in if has_tl { &["DD", "DDD"][..] } else { &["DD", "DDD", "DDW"][..] } {
+                let mut sc = Scenario::plain(p.clone(), Mode::Async, 0);
+                sc.script = Some(script.to_string());
+                if *script == "DD" {
+                    scs_b2b.push(sc);
+                } else {
+                    scs_b2b3.push(sc);
+                }
+            }
         }
-        jobs.push(E2Job { label: "async scripts over thread-local plans (polling / accessors between dispatch and wait) and back-to-back dispatch() calls on every <= 2-op plan".into(), scenarios: scs, bounds: b(1), delay: false });
+        jobs.push(E2Job { label: "async scripts over <= 2-op plans: polling / accessors between dispatch and wait (thread-local plans), a second dispatch after a poll".into(), scenarios: scs, bounds: b(if q { 0 } else { 1 }), delay: false });
+        jobs.push(E2Job { label: "async scripts over <= 2-op plans: two back-to-back dispatch() calls (DD)".into(), scenarios: scs_b2b, bounds: b(1), delay: false });
+        jobs.push(E2Job { label: "async scripts over <= 2-op plans: three back-to-back dispatch() calls, two and a wait (DDD, DDW)".into(), scenarios: scs_b2b3, bounds: b(if q { 0 } else { 1 }), delay: false });
     }
     if prop == "C04" || prop == "C05" {
         // dispatch entered from a worker of a FOREIGN pool (of 1 or 2 threads): the dispatcher's own pool (user-supplied
